@@ -1,4 +1,5 @@
 import BarterModel.Lemmas.Position
+import BarterModel.Lemmas.KernelsAgree.Position
 /-!
 # C02 — Position size and realised PnL conserve the cash flows of the fills
 
@@ -270,5 +271,31 @@ example : ¬ ReachesOrCrossesZero (net (exFills.take 2)) (net (exFills.take 3)) 
 example : (runFills (exFills.take 6)).pm.side = some .buy ∧
     (runFills (exFills.take 6)).pm.signedQty = 3 := by decide +kernel
 example : (life (exFills.take 4)).ids = [1, 2, 3, 4] ∧ (life (exFills.take 4)).maxAbs = 4 := by decide +kernel
+
+/-- **Tie to the source by translation.** The arithmetic kernels `Position.updateFromTrade` is built
+from (`calculate_price_entry_average`, `calculate_pnl_realised`, and `calculate_pnl_unrealised` with
+its `approximate_remaining_exit_fees`) are regenerated from the current
+`barter/src/engine/state/position.rs` by `tools/rust2lean.py` on every run, and the generated
+definitions equal the model's for all arguments (`sideOf` is the bijection between the model's `Side`
+and the one translated from `enum Side`). A change of one of these kernels in the source makes this
+theorem fail to build. -/
+theorem kernels_agree_with_source :
+    (∀ currentAvg currentQtyAbs tradePrice tradeQtyAbs : Rat,
+        BarterModel.Generated.calculate_price_entry_average currentAvg currentQtyAbs tradePrice tradeQtyAbs
+          = calculatePriceEntryAverage currentAvg currentQtyAbs tradePrice tradeQtyAbs)
+    ∧ (∀ quantityAbs quantityAbsMax feesEnter : Rat,
+        BarterModel.Generated.approximate_remaining_exit_fees quantityAbs quantityAbsMax feesEnter
+          = approximateRemainingExitFees quantityAbs quantityAbsMax feesEnter)
+    ∧ (∀ (side : Side) (priceEntryAverage quantityAbs quantityAbsMax feesEnter price : Rat),
+        BarterModel.Generated.calculate_pnl_unrealised (BarterModel.KernelsAgree.sideOf side)
+            priceEntryAverage quantityAbs quantityAbsMax feesEnter price
+          = calculatePnlUnrealised side priceEntryAverage quantityAbs quantityAbsMax feesEnter price)
+    ∧ (∀ (side : Side) (priceEntryAverage closedQuantity closedPrice closedFee : Rat),
+        BarterModel.Generated.calculate_pnl_realised (BarterModel.KernelsAgree.sideOf side)
+            priceEntryAverage closedQuantity closedPrice closedFee
+          = calculatePnlRealised side priceEntryAverage closedQuantity closedPrice closedFee)
+    ∧ (∀ s, BarterModel.KernelsAgree.sideTo (BarterModel.KernelsAgree.sideOf s) = s)
+    ∧ (∀ s, BarterModel.KernelsAgree.sideOf (BarterModel.KernelsAgree.sideTo s) = s) :=
+  BarterModel.KernelsAgree.position_kernels_agree
 
 end BarterModel.Props.C02
